@@ -3,7 +3,7 @@ META = dict(
     level="other",
     claim="Dictionary semantics of the real hashmap.c as a one-step inductive invariant: from an arbitrary well-formed table state (arbitrary tombstones, arbitrary 64-bit hash values, hence all collision patterns and all histories) get/put/delete return the abstract view's answer, update exactly the addressed key and re-establish the invariant; unreachable() cannot fire. rehash itself is not covered (symbolic capacity). Bounded in table capacity (4 quick, 8 thorough; real tables start at 16) and to 3 distinct keys; unbounded in history length and hash values.",
     note="Assumed: fnv_hash is a deterministic function of the key bytes (replaced by a ghost hash table). Trusted: CBMC. The induction over histories (invariant holds initially, preserved by every step) is the standard argument and is not machine-checked as a whole.",
-    functions=["hashmap.c:get_entry", "hashmap.c:get_or_insert_entry", "hashmap.c:hashmap_get2", "hashmap.c:hashmap_put2", "hashmap.c:hashmap_delete2", "hashmap.c:match"],
+    functions=["preprocess.c:add_macro", "preprocess.c:find_macro", "preprocess.c:undef_macro", "hashmap.c:get_entry", "hashmap.c:get_or_insert_entry", "hashmap.c:hashmap_get2", "hashmap.c:hashmap_put2", "hashmap.c:hashmap_delete2", "hashmap.c:match"],
     trusted_base=["CBMC 6.11", "ghost hash table in place of fnv_hash"],
     assumptions=["fnv_hash deterministic (ghost table)", "keys are NUL-terminated 1-byte strings from a pool of 3"],
     explanation="one-step inductive dictionary invariant on the real hashmap.c from arbitrary well-formed states; capacity-bounded, so reported as bounded",
@@ -31,6 +31,9 @@ def jobs(tier):
                           replay=None, sample=f"{nm} from an arbitrary well-formed state of a capacity-{cap} table"))
     # tried: put through rehash with the slot kinds concretised path by path (-DCONCRETE_STATE, cbmc --paths lifo), capacity 4:
     # no result in 900 s (625 table shapes x symbolic hash values through two tables).  rehash stays NOT covered.
+    # also tried: rehash called directly on concrete table shapes (-DOPN=4 -DSHAPE='{2,1,3,0}', hash values symbolic): no result in 600 s.
+    js.append(Job(name="macro-table-client", src="macrotab.c", group="C17.4 macro table client", mode="plain", cut=["error", "error_tok", "error_at", "warn_tok", "verror_at"], unwind=6, timeout=300, replay=None,
+                  bounded="one name", sample="add_macro / find_macro / undef_macro over a ghost dictionary, arbitrary earlier definition"))
     js.append(Job(name="hm-match", src="match.c", group="C17 key comparison", mode="plain", cut=["error", "error_tok", "error_at"], unwind=26, timeout=300, replay=None,
                   bounded="keys of at most 20 bytes", sample="match() on arbitrary keys up to 20 bytes"))
     return js
